@@ -380,3 +380,24 @@ impl<B: Block, I: Copy, O1: Copy, O2: Copy> Rig12<B, I, O1, O2> {
         assert!(idle, "BOUND: block not quiescent after the flush rounds of this harness");
     }
 }
+
+/// Scheduled delivery only (no one-shot twin): returns what instance B produced.
+pub fn run_b_11<B: Block, I: Copy, O: Copy, F: Fn(ReadStream<I>) -> (B, ReadStream<O>)>(
+    mk: &F,
+    input: &[I],
+    tags: &[ATag],
+    cap: usize,
+    sched: &[(usize, usize)],
+    b_rounds: usize,
+) -> Collected<O> {
+    let mut b = Rig11::new(cap, cap, mk);
+    for (f, d) in sched {
+        let v = b.step(input, tags, *f, *d);
+        assert!(v != Verdict::Err, "work() returned an error during the schedule");
+    }
+    b.flush(input, tags, b_rounds);
+    assert!(b.next == input.len(), "BOUND: instance B did not take all input");
+    let bo = std::mem::replace(&mut b.out, Collected { data: Vec::new(), tags: Vec::new() });
+    b.forget();
+    bo
+}
